@@ -159,10 +159,11 @@ def enrich(doc, r, opts):
                                                    sp.TextDecorationType(underline=True, line_through=True)]))
         if r.random() < 0.4:
           e.set_style(SP.Color, r.choice([sp.NamedColors.red.value, sp.NamedColors.white.value, sp.NamedColors.lime.value,
-                                          sp.ColorType((17, 34, 51, 255)), sp.ColorType((1, 2, 3, 128)), sp.NamedColors.black.value]))
+                                          sp.ColorType((17, 34, 51, 255)), sp.ColorType((1, 2, 3, 128)), sp.NamedColors.black.value,
+                                          sp.ColorType((10, 20, 30, 200))]))
         if r.random() < 0.35:
           e.set_style(SP.BackgroundColor, r.choice([sp.NamedColors.blue.value, sp.NamedColors.transparent.value, sp.NamedColors.black.value,
-                                                    sp.ColorType((10, 20, 30, 200)), sp.NamedColors.white.value]))
+                                                    sp.ColorType((10, 20, 30, 200)), sp.NamedColors.white.value, sp.ColorType((17, 34, 51, 255))]))
     elif isinstance(e, m.P):
       if opts.get("more_ruby") and r.random() < 0.6:
         e.push_child(make_ruby(doc, r, e.get_id() + "r"))
@@ -355,9 +356,26 @@ def chain_flags(chain):
 
 
 def classify_text(exp_cue, act_text):
-  """witness class of a payload difference, from the source of the characters that are missing"""
+  """witness class(es) of a payload difference -> [class].  First by hypothesis: the payload is the required one without the
+  characters of one (or several) of the suspect sources; otherwise from the source of the characters a diff finds missing."""
+  several_regions = exp_cue.get("bodies", 1) >= 2
+  lines = exp_cue["lines"]
+
+  def flags_of(chain):
+    f = chain_flags(chain)
+    if not several_regions:
+      f.discard("division-after-first")      # regions are merged only when there are several
+    return f
+
+  order = ("ruby-base", "division-after-first", "nested-division")
+  for n in (1, 2, 3):
+    for combo in itertools.combinations(order, n):
+      kept = [[(ch, chain) for ch, chain in ln if not flags_of(chain) & set(combo)] for ln in lines]
+      kept = [ln for ln in kept if ln]
+      if C.text_of(kept) == act_text or C.text_of(C.drop_blank_lines(kept)) == act_text:
+        return ["text-dropped:" + f for f in combo]
   chars = []
-  for k, ln in enumerate(exp_cue["lines"]):
+  for k, ln in enumerate(lines):
     if k:
       chars.append((C.NL, None))
     chars += ln
@@ -370,25 +388,22 @@ def classify_text(exp_cue, act_text):
     if tag in ("insert", "replace"):
       extra += j2 - j1
   real_missing = [(ch, chain) for ch, chain in missing if chain is not None and ch not in C.BLANK_CHARS]
-  several_regions = exp_cue.get("bodies", 1) >= 2
   if real_missing and not extra or (real_missing and sorted(exp_text) != sorted(act_text)):
     flags = set()
     for _, chain in real_missing:
-      flags |= chain_flags(chain)
-    if not several_regions:
-      flags.discard("division-after-first")      # regions are merged only when there are several
-    for f in ("ruby-base", "division-after-first", "nested-division"):
+      flags |= flags_of(chain)
+    for f in order:
       if f in flags:
-        return "text-dropped:" + f
-    return "text-dropped:other" if not extra else "text-changed"
+        return ["text-dropped:" + f]
+    return ["text-dropped:other" if not extra else "text-changed"]
   if sorted(exp_text) == sorted(act_text):
-    return "text-reordered"
+    return ["text-reordered"]
   if extra and not missing:
-    return "text-invented-or-repeated"
-  return "text-changed"
+    return ["text-invented-or-repeated"]
+  return ["text-changed"]
 
 
-def check_c06_output(rec, ref, info, cfg_name, cues):
+def check_c06_output(rec, ref, info, cfg_name, cues, problems=(), text=""):
   fmt = "srt" if cfg_name.startswith("srt") else "vtt"
   contract = f"{fmt}: cues are the non-blank intervals with exactly the visible text"
   config = {"format": fmt, "line_position": ALL_CONFIGS[cfg_name].get("line_position", False)}
@@ -422,16 +437,21 @@ def check_c06_output(rec, ref, info, cfg_name, cues):
   for e in _group_lines(primary):
     a = next((x for x in grouped if x["begin"] == e["begin"]), None) or next((x for x in grouped if x["begin"] <= e["begin"] < x["end"]), None)
     act_text = a["text"] if a is not None else ""
-    if a is None and primary[-1]["unbounded"] and grouped and e["begin"] >= grouped[-1]["end"] and e["text"] == grouped[-1]["text"]:
+    if a is None and primary[-1]["unbounded"] and grouped and e["begin"] >= grouped[-1]["end"] and e["text"] == grouped[-1]["text"] \
+        and grouped[-1]["end"] == actual[-1]["begin"] + 10000:
       continue      # the unbounded tail: ends 10 s after the begin of the last cue written (see timeline_diff)
     if act_text != e["text"] and C.text_of(C.drop_blank_lines(e["lines"])) != act_text:
-      k = classify_text(e, act_text)
-      classes.setdefault(k, f"{e['begin']}-{e['end']} ms: payload {act_text!r}, required {e['text']!r}")
+      for k in classify_text(e, act_text):
+        classes.setdefault(k, f"{e['begin']}-{e['end']} ms: payload {act_text!r}, required {e['text']!r}")
   if not classes:
     kind, msg = first
     if kind == "text":
       kind = "text-changed"
     classes[kind] = msg
+  if any(code == "stray-text-after-blank-line" for code, _ in problems):
+    # an empty line inside a payload ends the cue for a reader: what follows it is lost (the grammar defect itself is C07's)
+    lost = "text-lost-after-empty-line" + (":cr" if "\r" in text else "")
+    classes = {lost: next(iter(classes.values()))}
   for k, msg in sorted(classes.items()):
     rec.fail(f"{fmt}:{k}", contract, f"[{cfg_name}] {msg}; document {docgen.describe(ref.doc, 700)}", desc,
              observed=[(a["begin"], a["end"], a["text"]) for a in actual][:12], required=[(e["begin"], e["end"], e["text"]) for e in primary][:12],
@@ -597,8 +617,10 @@ def check_c07_output(rec, ref, info, cfg_name, text, cues, problems):
   per_region = fmt == "vtt" and opts["line_position"]
   numbering = "required" if fmt == "srt" or opts["cue_id"] else "absent"
   probs = list(problems) + C.sequence_problems(cues, numbering, same_interval_ok=per_region)
+  broken = any(code == "stray-text-after-blank-line" for code, _ in problems)
   for c in cues:
-    probs += c["markup_problems"]
+    if not broken:       # a payload cut short by an empty line leaves tags open: reported once, as the empty line
+      probs += c["markup_problems"]
     if fmt == "srt" and any(C._SRT_TIMING.fullmatch(ln) for ln in c["payload"].split(C.NL)):
       probs.append(("timing-line-in-payload", c["payload"]))
   if fmt == "srt" and text and not text.endswith("\n"):
@@ -722,6 +744,79 @@ def check_text_helpers(rec, max_len, alphabet="a \n\r"):
                    replay_args={"cls": name, "text": s})
 
 
+def time_grid(r, quick):
+  grid = [Fraction(k, 1000) for k in range(0, 3000, 1 if not quick else 7)]
+  grid += [Fraction(k, 2000) for k in range(1, 4000, 2 if not quick else 26)]                     # ties
+  grid += [Fraction(h * 3600 + mi * 60 + s) + f for h in (0, 1, 9, 10, 99, 100) for mi in (0, 59) for s in (0, 59)
+           for f in (Fraction(0), Fraction(1, 2000), Fraction(999, 1000), Fraction(1999, 2000), Fraction(9995, 10000))]
+  grid += [Fraction(r.randrange(0, 400000 * 3000), 3000) for _ in range(200 if quick else 3000)]
+  return grid
+
+
+def check_default_end(rec, quick, seed):
+  """an unbounded last cue ends 10 s after it begins: one paragraph that begins at b and never ends, through the public writers"""
+  contract = "the unbounded last cue ends 10 s after it begins"
+  for b in time_grid(rng(seed, "cues-default-end"), quick):
+    doc = m.ContentDocument()
+    body = m.Body(doc)
+    div = m.Div(doc)
+    p = m.P(doc)
+    p.set_begin(b)
+    span = m.Span(doc)
+    span.push_child(m.Text(doc, "x"))
+    p.push_child(span)
+    div.push_child(p)
+    body.push_child(div)
+    doc.set_body(body)
+    for cfg_name in ("srt", "vtt"):
+      text, err = run_writer(doc, cfg_name)
+      rec.evaluated(contract, (cfg_name, b), {"begin": str(b), "config": cfg_name} if b == 1 else None)
+      got = None
+      if err is None:
+        cues, _, _ = read_output(cfg_name, text)
+        got = [(c["begin"], c["end"], c["text"]) for c in cues]
+      want = [(C.to_ms(b, mode), C.to_ms(b, mode) + 10000, "x") for mode in ("even", "up")]
+      if got is None or not any(got == [w] for w in want):
+        rec.fail(f"{cfg_name}:default-end", contract, f"[{cfg_name}] a paragraph that begins at {b} s and never ends gives {got if err is None else repr(err)}, "
+                 f"required {want[0]}", {"begin": str(b)}, replayer="replayers.c06:default_end", replay_args={"begin": str(b), "config": cfg_name})
+
+
+def check_to_string(rec, quick, seed):
+  """SrtParagraph / VttCue.to_string raise exactly when the rounded times coincide or are reversed (the equality half is
+  not carried by the proof tier: float determinism); the serialised timing line is begin < end"""
+  contract = "to_string raises iff the rounded end is not after the rounded begin"
+  r = rng(seed, "cues-to-string")
+  deltas = [Fraction(0), Fraction(1, 4000), Fraction(1, 2500), Fraction(-1, 2500), Fraction(1, 2000), Fraction(1, 1000), Fraction(-1, 1000),
+            Fraction(3, 2000), Fraction(7, 3), Fraction(1, 999)]
+  for b in time_grid(r, quick):
+    for d in deltas:
+      e = b + d
+      if e < 0:
+        continue
+      for cls, fmt in ((SrtParagraph, "srt"), (VttCue, "vtt")):
+        p = cls(1)
+        p.set_begin(b)
+        p.set_end(e)
+        p.append_text("x")
+        rec.evaluated(contract, (fmt, b, d), {"begin": str(b), "end": str(e)} if (b, d) == (1, Fraction(1, 2000)) else None)
+        try:
+          out = p.to_string()
+        except ValueError:
+          out = None
+        except Exception as err:  # pylint: disable=broad-except
+          out = err
+        want_raise = round(e * 1000) <= round(b * 1000)
+        ok = (out is None) == want_raise and not isinstance(out, Exception)
+        if ok and out is not None:
+          text = out if fmt == "srt" else "WEBVTT\n\n" + out
+          cues, probs, _ = read_output(fmt, text)
+          ok = not probs and len(cues) == 1 and (cues[0]["begin"], cues[0]["end"]) == (round(b * 1000), round(e * 1000))
+        if not ok:
+          rec.fail(f"{cls.__name__}.to_string", contract, f"{cls.__name__}: begin {b} end {e} (rounded {round(b * 1000)}, {round(e * 1000)} ms) -> "
+                   f"{'ValueError' if out is None else repr(out)}", {"begin": str(b), "end": str(e)},
+                   replayer="replayers.c07:to_string", replay_args={"kind": fmt, "model": {"b": str(b), "e": str(e)}})
+
+
 # ----------------------------------------------------------------------------------------------------------------------
 # driver
 
@@ -748,7 +843,7 @@ def check_doc(rec, prop, doc, info, cfg_names):
     rec.evaluated(contract, hash((info, cfg_name)), None)
     cues, problems, _ = read_output(cfg_name, text)
     if prop == "C06":
-      check_c06_output(rec, ref, info, cfg_name, cues)
+      check_c06_output(rec, ref, info, cfg_name, cues, problems, text)
     else:
       check_c07_output(rec, ref, info, cfg_name, text, cues, problems)
   return "ok"
@@ -775,10 +870,16 @@ def chunk(job):
   return rec
 
 
-def helpers_job(job):
-  prop, quick = job
+def units_job(job):
+  logging.disable(logging.CRITICAL)
+  prop, quick, seed, part = job
   rec = Recorder(prop, "", {})
-  check_text_helpers(rec, 5 if quick else 7)
+  if part == "helpers":
+    check_text_helpers(rec, 5 if quick else 7)
+  elif part == "default-end":
+    check_default_end(rec, quick, seed)
+  else:
+    check_to_string(rec, quick, seed)
   return rec
 
 
@@ -792,14 +893,23 @@ def main(prop, per_scope):
                  "fontWeight/fontStyle/textDecoration/color/backgroundColor, paragraph textAlign/direction, region origin/extent/displayAlign, "
                  "sub-millisecond timing offsets) x writer configurations (SRT text_formatting on/off; WebVTT line_position x text_align x "
                  "cue_id: 3 of 8 per document in the quick tier, all 8 in the thorough tier); a case is non-trivial when the output has cues",
-                 {"documents_per_scope": {k: v * 4 for k, v in per.items()}, "scopes": list(per), "chunks_per_scope": 4})
-  jobs = [(prop, args.seed, ch, per[scope], scope, quick) for scope in per for ch in range(4)]
-  parts = parallel(chunk, jobs)
+                 {"documents_per_scope": {k: v * CHUNKS for k, v in per.items()}, "scopes": list(per), "chunks_per_scope": CHUNKS,
+                  "unit_contracts": "default end over a grid of begin times (ms grid, ties, hour/minute boundaries, random thirds of ms)" if prop == "C06"
+                  else "normalize_eol / blank test over all strings up to length 5 (quick) / 7 over {a, space, LF, CR}; to_string over the same grid of "
+                       "begin times x 10 interval lengths around 0, 0.5 and 1 ms"})
+  jobs = [(prop, args.seed, ch, per[scope], scope, quick) for scope in per for ch in range(CHUNKS)]
+  units = [(prop, quick, args.seed, part) for part in (("default-end",) if prop == "C06" else ("helpers", "to-string"))]
+  parts = parallel(job, jobs + units)
   skipped = 0
   for part in parts:
     rec.merge(part)
     skipped += getattr(part, "skipped", 0)
   rec.scope["documents_outside_the_statement_skipped"] = skipped
-  if prop == "C07":
-    rec.merge(helpers_job((prop, quick)))
   return rec.dump(args.out)
+
+
+CHUNKS = 8
+
+
+def job(j):
+  return units_job(j) if len(j) == 4 else chunk(j)
